@@ -97,6 +97,28 @@ func Explore(r *core.Run, o Options) {
 		}
 		return out
 	}
+	// follow-up calls of the mutation mode: the first symbol of every kind, and a list that fails after a typed patch has been applied
+	type followUp struct {
+		name string
+		ps   []patch.Patch
+	}
+	var followUps []followUp
+	if o.Mutation {
+		seenKind := map[string]bool{}
+		var firstTyped patch.Patch
+		for _, a := range alphabet {
+			if !seenKind[a.Kind] {
+				seenKind[a.Kind] = true
+				followUps = append(followUps, followUp{a.Name, []patch.Patch{a.p}})
+				if firstTyped == nil && (a.Kind == "services" || a.Kind == "keys" || a.Kind == "aka") {
+					firstTyped = a.p
+				}
+			}
+		}
+		if failing, err := patch.NewJSONPatch(`[{"op":"remove","path":"/verif-no-such-member"}]`); err == nil && firstTyped != nil {
+			followUps = append(followUps, followUp{"typed patch, then a JSON patch that fails", []patch.Patch{firstTyped, failing}})
+		}
+	}
 	// apply runs the real composer on a list of symbols and judges it against the model.
 	apply := func(n *node, sis []int) (*node, *core.Fail) {
 		var ps []patch.Patch
@@ -154,6 +176,21 @@ func Explore(r *core.Run, o Options) {
 			}
 			if err == nil && res == nil {
 				return nil, &core.Fail{Key: "nil-without-error/" + last, What: "ApplyPatches returned neither document nor error", Detail: det}
+			}
+		}
+		if o.Mutation && err == nil && res != nil {
+			// the document just returned is handed straight back to the same composer (what an applier folding a history does):
+			// it is an input like any other and must come out of the next call unchanged, also when that call fails half-way
+			kept := snapshot(res)
+			for _, fu := range followUps {
+				r2, e2 := dc.ApplyPatches(res, fu.ps)
+				if after := snapshot(res); after != kept {
+					return nil, &core.Fail{Key: "result-modified-when-passed-back/" + fu.name, What: "the document returned by ApplyPatches was modified when it was passed to the next ApplyPatches call on the same composer (" + fu.name + ")",
+						Detail: merge(det, map[string]any{"next_call": fu.name, "before": kept, "after": after})}
+				}
+				if e2 != nil && r2 != nil {
+					return nil, &core.Fail{Key: "partial-document-on-error/" + fu.name, What: "failing patch list returned a document together with the error", Detail: det}
+				}
 			}
 		}
 		want, werr := rpatch.Apply(n.model, ms)
